@@ -66,7 +66,10 @@ class RMethod:
             elif self.raw and i == 0:
                 a.attrs.append(sv_payload(("raw",)))
             pl.append(a)
-        if self.data is not None:
+        if self.data is not None and self.data_index == -1 and args:
+            # (rule-breaking) the marker sits on the `error` / `result` parameter itself
+            args[0].attrs.append(sv_data(self.data, bare=(self.data == ())))
+        elif self.data is not None:
             d = Arg("data", self.data_param_ty(), [sv_data(self.data, bare=(self.data == ()))])
             if self.on == "success":
                 pl.insert(min(self.data_index, len(pl)), d)
@@ -252,8 +255,8 @@ def gen_payload(rng):
         return [("pl", P("Binary"))], True
     n = rng.choice([1, 1, 2, 3])
     # (incl. names the generated builders and dispatch use for their own locals: a payload parameter may be called
-    #  gas_limit, msg, id, payload, reply_on, data or result and must still travel unchanged)
-    names = rng.sample(["p", "q", "amount", "memo", "flag", "gas_limit", "msg", "id", "payload", "reply_on", "data", "result"], n)
+    #  gas_limit, msg, id, payload, reply_on or result and must still travel unchanged)
+    names = rng.sample(["p", "q", "amount", "memo", "flag", "gas_limit", "msg", "id", "payload", "reply_on", "result"], n)
     return [(nm, rng.choice(PAYLOAD_TYS)) for nm in names], False
 
 
@@ -288,18 +291,43 @@ def gen_table(rng, valid_bias=0.8):
                 m.payload = [(n + "2", t) for n, t in m.payload]
             methods.append(m)
     # a method claiming two handler names (same signature needed): add h2 to a method of the first group
-    if len(hnames) >= 2 and rng.random() < 0.3:
-        a = [m for m in methods if hnames[0] in m.claims()][0]
+    if len(hnames) >= 2 and rng.random() < 0.45:
+        a = rng.choice([m for m in methods if hnames[0] in m.claims()])
         b = [m for m in methods if hnames[1] in m.claims()]
         if all([t.rust() for _, t in x.payload] == [t.rust() for _, t in a.payload] and x.raw == a.raw for x in b) and \
                 not any(excludes(x.on, a.on) for x in b):
             if not a.handlers:
                 a.handlers = [a.name]
-            a.handlers.append(hnames[1])
+            # (the shared name anywhere in the list, not only last; sometimes a third name that only this method claims)
+            a.handlers.insert(rng.randint(0, len(a.handlers)), hnames[1])
+            if rng.random() < 0.3:
+                a.handlers.insert(rng.randint(0, len(a.handlers)), "solo_%s" % a.name)
     rng.shuffle(methods)
     if rng.random() > valid_bias:
         mutate_invalid(rng, methods)
     return methods
+
+
+def mate_before(rng, methods, x):
+    """the faulty method x shares its handler name with a well-formed method of the other outcome that is declared
+    BEFORE it (validation must not stop at the first method of a name)"""
+    if x.on == "always":
+        return
+    h = list(x.claims())[0]
+    want = {"success": "error", "error": "success"}[x.on]
+    mates = [y for y in methods if y is not x and h in y.claims()]
+    if any(y.on != want for y in mates):
+        return                          # another fault would join: keep the single one
+    if not mates:
+        pl = list(x.payload)
+        if x.data is not None and x.on == "success" and x.data_index >= 1:
+            # the mate's payload has, at the position of the misplaced data parameter, a parameter of that very type: were
+            # the marker ignored, the two signatures would agree
+            i = min(x.data_index, len(pl))
+            pl = pl[:i] + [("data", x.data_param_ty())] + pl[i:]
+        methods.append(RMethod(name=x.name + "_m", on=want, handlers=[h], payload=pl, raw=x.raw))
+    methods.remove(x)
+    methods.append(x)
 
 
 def mutate_invalid(rng, methods):
@@ -351,14 +379,22 @@ def mutate_invalid(rng, methods):
     elif kind == "data_on_error":
         m2 = [x for x in methods if x.on != "success"]
         if m2:
-            m2[0].data = rng.choice([(), ("opt",), ("raw",)])
-            m2[0].data_ty = P("u32")
+            x = rng.choice(m2)
+            x.data = rng.choice([(), ("opt",), ("raw",)])
+            x.data_ty = P("u32")
+            if rng.random() < 0.4:
+                x.data_index = -1
+            if rng.random() < 0.5:
+                mate_before(rng, methods, x)
     elif kind == "data_second":
         m2 = [x for x in methods if x.on == "success" and not x.raw]
         if m2:
-            m2[0].data = rng.choice([(), ("raw",)])
-            m2[0].data_ty = P("u32")
-            m2[0].data_index = 1
+            x = rng.choice(m2)
+            x.data = rng.choice([(), ("raw",)])
+            x.data_ty = P("u32")
+            x.data_index = 1
+            if rng.random() < 0.5:
+                mate_before(rng, methods, x)
     elif kind == "bad_payload_arg":
         # `#[sv::payload(..)]` with anything but exactly `raw` is an unknown attribute argument
         if not m.payload:
